@@ -51,6 +51,45 @@ def cli_target_history(ctx, ps):
                               {"program": progs.source_of(p), "target_history": what}, "%d bytes" % len(fresh), "%s bytes" % (len(got) if got is not None else None))
                 return
         ctx.count("cli_target_history_same")
+    # the sources are the main module, the modules it imports and the base: a target left by a run on earlier versions of
+    # an imported module (or of the base) is newer than the main module and must still be rewritten
+    root = lspws.fresh_dir("c06_cli_imports")
+    main = 'use "lib.oal" as l;\nres /pets on get -> <l.@pet>;\n'
+    lib1, lib2 = "let @pet = { 'name str };\n", "let @pet = { 'name str, 'age int };\n"
+    base1 = '{"openapi": "3.0.3", "info": {"title": "one", "version": "1"}, "paths": {}}'
+    base2 = '{"openapi": "3.0.3", "info": {"title": "two", "version": "2"}, "paths": {}}'
+
+    def put(name, text):
+        with open(os.path.join(root, name), "w") as f:
+            f.write(text)
+
+    def cli(target, base=None):
+        r = subprocess.run([core.CLI, "-m", "main.oal", "-t", target] + (["-b", base] if base else []), cwd=root, capture_output=True, timeout=60)
+        try:
+            return r.returncode, open(os.path.join(root, target), "rb").read()
+        except OSError:
+            return r.returncode, None
+    put("main.oal", main)
+    put("lib.oal", lib1)
+    put("base.yaml", base1)
+    time.sleep(0.05)
+    cli("api.yaml", "base.yaml")                   # the earlier run: api.yaml is now newer than main.oal
+    time.sleep(0.05)
+    for what, name, text in (("an imported module", "lib.oal", lib2), ("the base description", "base.yaml", base2)):
+        put(name, text)
+        rc1, reused = cli("api.yaml", "base.yaml")
+        rc2, fresh = cli("fresh_%s" % name.replace(".", "_"), "base.yaml")
+        ctx.cov["evaluations"] += 2
+        if rc1 != 0 or rc2 != 0:
+            ctx.broken.append("oal-cli fails on the two-module program of the target-history stage")
+            return
+        if reused != fresh:
+            ctx.violation("the same sources leave a different document in the target depending on what an earlier run left there (the target was "
+                          "written before %s changed)" % what, {"program": {"mods": {"main.oal": main, "lib.oal": text if name == "lib.oal" else lib2},
+                                                                               "main": "main.oal"}, "target_history": "changed " + name},
+                          "%d bytes" % len(fresh or b""), "%d bytes" % len(reused or b""))
+            return
+        ctx.count("cli_target_history_same")
 
 
 def check(ctx):
